@@ -454,7 +454,34 @@ def _build_store(ctx, joblib, case, idx):
     return mem, cached, root, by_rel, base, now
 
 
+# Local time zone of the process while a case runs: get_items() converts access times with datetime.fromtimestamp and the
+# deadline is datetime.now() - age_limit, both NAIVE LOCAL datetimes; they must agree in every zone (fixed offsets, no DST, so
+# the conversion is a shift and the 400 s margin around the deadline is kept).
+_ZONES = ("UTC", "UTC", "AAA-3", "BBB+5", "CCC-5:45", "DDD+9:30")
+
+
+def _set_zone(tz):
+    os.environ["TZ"] = tz
+    time.tzset()
+
+
 def _run_case(ctx, res, case, idx, requests, pending):
+    if case.get("tz") is None:
+        case["tz"] = ctx.rng(f"tz{idx}").choice(_ZONES)
+    saved = os.environ.get("TZ")
+    _set_zone(case["tz"])
+    try:
+        res.count("tz=" + case["tz"])
+        return _run_case_in_zone(ctx, res, case, idx, requests, pending)
+    finally:
+        if saved is None:
+            os.environ.pop("TZ", None)
+            time.tzset()
+        else:
+            _set_zone(saved)
+
+
+def _run_case_in_zone(ctx, res, case, idx, requests, pending):
     joblib = core.use_repo()
     Faulty = _backend(joblib)
     EXEC_LOG.clear()
@@ -491,7 +518,7 @@ def _run_case(ctx, res, case, idx, requests, pending):
         age, deadline = None, None
     else:
         deadline_s = base - 1000 * j - 500
-        deadline = deadline_s * 10**6
+        deadline = _us(deadline_s)  # in the same (naive local) microseconds as the inventory's access times
         age = datetime.timedelta(seconds=now - deadline_s)
     kref, srt = _ref_prefix(items, b_exact, il, deadline)
     if case["faults"] is None:
@@ -522,7 +549,7 @@ def _run_case(ctx, res, case, idx, requests, pending):
         impl_items_after = sorted((os.path.relpath(it.path, root), it.size, _dt_us(it.last_access)) for it in inv2)
     except Exception as e:  # noqa: BLE001
         impl_items_after = "raises:" + type(e).__name__
-    desc = dict(spec=spec, lim=[b, bstr, il, j], faults=case["faults"], items=items, bytes_limit=b_arg, items_limit=il,
+    desc = dict(spec=spec, lim=[b, bstr, il, j], faults=case["faults"], tz=case["tz"], items=items, bytes_limit=b_arg, items_limit=il,
                 deadline=deadline, fault_paths=fault_paths, deleted=deleted, calls=calls, outcome=outcome)
     res.evaluations += 1
     res.count(f"n={len(items)}")
@@ -911,7 +938,7 @@ def run(ctx):
         spec = case.get("spec", {})
         c = dict(entries=[dict(e) for e in spec.get("entries", [])], strays=list(spec.get("strays", [])),
                  lim=tuple(case["lim"]) if "lim" in case else None, faults=case.get("faults"),
-                 no_backend=spec.get("no_backend", False))
+                 no_backend=spec.get("no_backend", False), tz=case.get("tz"))
         return _explore(ctx, 1, "replay", cases=[c], malformed=False)
     return _explore(ctx, 4000 if ctx.thorough else 500, "main", big=ctx.thorough, memstr_n=20000 if ctx.thorough else 1000)
 
